@@ -1,5 +1,315 @@
+// W3: concurrent callers.  2-4 tasks, each on a real thread, compile structurally different projects and step
+// VMs; threads are parked and released one at a time at the hook points inside the library, so exactly one runs
+// at any moment and *who* runs is the plan's decision (schedule vector).  Oracle: every task's serialised result
+// equals the same task run alone before and after the concurrent phase.
+#include <pthread.h>
+
+#include <condition_variable>
+#include <mutex>
+
+#include "Compiler/include/compiler.hpp"
+#include "VM/include/verif_hook.hpp"
+#include "access.hpp"
+#include "hll.hpp"
 #include "sim.hpp"
+
+using namespace Theo;
+
 namespace sim {
-Plan gen_mt_plan(const std::string &, Rng &, long long, const std::string &) { Plan p; p.world = "mt"; return p; }
-void exec_mt_plan(const Plan &, Ctx &, Outcome &) {}
+
+namespace {
+
+// ------------------------------------------------------------------------------------------ fingerprints
+void hash_instr(Hasher &h, const Instruction &i) {
+  h.add((uint64_t)i.op);
+  switch (i.op) {
+    case OpCode::TEST: h.add((uint64_t)i.parameters.test.target); h.add((uint64_t)i.parameters.test.op1); h.add((uint64_t)i.parameters.test.op2); break;
+    case OpCode::ADD_CONST: h.add((uint64_t)i.parameters.add.target); h.add((uint64_t)i.parameters.add.source); h.add((uint64_t)(int64_t)i.parameters.add.constant); break;
+    case OpCode::PREPARE_EXEC: h.add((uint64_t)i.parameters.prepare.count); h.add((uint64_t)i.parameters.prepare.index); h.add((uint64_t)i.parameters.prepare.target); break;
+    case OpCode::CONST: case OpCode::JMPC: case OpCode::ARG: h.add((uint64_t)(int64_t)i.parameters.arg.target); h.add((uint64_t)(int64_t)i.parameters.arg.source); break;
+    case OpCode::JMP: case OpCode::EXEC: case OpCode::RET: h.add((uint64_t)(int64_t)i.parameters.jmp.offset); break;
+    default: break;
+  }
+}
+
+uint64_t fingerprint_result(const CodegenResult &r) {
+  Hasher h;
+  h.add(r.generated_correctly);
+  h.add(r.errors.size());
+  for (auto &e : r.errors) { h.add((uint64_t)e.t); h.add_str(e.message); h.add_str(e.file); h.add((uint64_t)(int64_t)e.line); }
+  h.add(r.code.code.size());
+  for (auto &i : r.code.code) hash_instr(h, i);
+  h.add(r.code.stack_maps.size());
+  for (auto &m : r.code.stack_maps) { h.add_str(m.func_name); for (auto &kv : m.map) { h.add((uint64_t)kv.first); h.add_str(kv.second); } }
+  for (auto &kv : r.code.potential_breaks) { h.add_str(kv.first.file); h.add((uint64_t)(int64_t)kv.first.line); for (int pc : kv.second) h.add((uint64_t)pc); }
+  for (auto &kv : r.code.line_info) { h.add((uint64_t)kv.first); h.add_str(kv.second.file); h.add((uint64_t)(int64_t)kv.second.line); }
+  for (auto &q : r.file_requests) h.add_str(q);
+  return h.get();
+}
+
+struct TaskResult {
+  uint64_t compile_fp = 0, exec_fp = 0;
+  bool ok = false;
+  long long steps = 0;
+  bool operator==(const TaskResult &o) const { return compile_fp == o.compile_fp && exec_fp == o.exec_fp; }
+};
+
+// what one caller does: compile its project, then drive a VM on the result through its ops
+TaskResult run_task(const Task &t, long long step_budget) {
+  TaskResult res;
+  CodegenResult r = Theo::compile(t.proj.files, t.proj.main);
+  res.compile_fp = fingerprint_result(r);
+  res.ok = r.generated_correctly;
+  if (!r.generated_correctly) return res;
+  VM vm(r.code);
+  std::vector<BreakPoint> avail;
+  for (auto &b : r.code.getAvailableBreakpoints()) avail.push_back(b);
+  Hasher h;
+  long long steps = 0;
+  auto step_until_stop = [&](long long max) {
+    for (long long k = 0; k < max && steps < step_budget; k++) {
+      bool stop = vm.executeSingle();
+      steps++;
+      if (stop) { h.add((uint64_t)VerifAccess::ip(vm)); BreakPoint b = vm.getCurrentBreak(); h.add_str(b.file); h.add((uint64_t)(int64_t)b.line); break; }
+    }
+  };
+  for (auto &op : t.ops) {
+    if (op.k == "bp" && !avail.empty()) { const BreakPoint &b = avail[(size_t)op.a % avail.size()]; h.add(vm.setBreakPoint(b.file, b.line, op.b != 0)); }
+    else if (op.k == "stepmode") vm.setSteppingMode(op.a != 0);
+    else if (op.k == "clear") vm.clearBreakpoints();
+    else if (op.k == "reset") vm.reset();
+    else if (op.k == "run") step_until_stop(std::max<long long>(1, op.a));
+    else if (op.k == "runall") { for (int k = 0; k < 400 && !vm.isDone() && steps < step_budget; k++) step_until_stop(step_budget); }
+    h.add(exec_state_hash(vm));
+    h.add(vm.getEnabledBreakPoints().size());
+  }
+  for (auto &a : vm.getActivations()) for (auto &kv : a.getActivationVariables()) { h.add_str(kv.first); h.add((uint64_t)(int64_t)kv.second); }
+  // the program the VM holds must be its own copy: compare against the compile result
+  const Program &c = VerifAccess::code(vm);
+  for (size_t i = 0; i < c.code.size() && i < r.code.code.size(); i++) if (!same_instr(c.code[i], r.code.code[i], true)) h.add(0xbadc0de + i);
+  for (auto &i : r.code.code) if (i.op == OpCode::BREAK) h.add(0xb4eaf);  // a VM's breakpoints must not leak into the compile result
+  res.exec_fp = h.get();
+  res.steps = steps;
+  return res;
+}
+
+// ------------------------------------------------------------------------------------------ scheduler
+struct Scheduler : HookSink {
+  std::mutex mu;
+  std::vector<std::condition_variable> cv;
+  int current = 0;
+  std::vector<char> finished;
+  const std::vector<int> &schedule;
+  size_t decision = 0;
+  Ctx &ctx;
+  long long switches = 0, yields = 0;
+  long long yields_by_site[20] = {0};
+  long long switches_by_site[20] = {0};
+  Hasher interleaving;
+  std::vector<int> in_gen, in_scan;   // per task: currently inside gen() / scan loop (for probes)
+  long long probe_switch_while_other_in_gen = 0, probe_switch_while_other_in_scan = 0;
+  std::vector<int> last_site;
+
+  static thread_local int tl_task;
+
+  Scheduler(size_t n, const std::vector<int> &s, Ctx &c) : cv(n), finished(n, 0), schedule(s), ctx(c), in_gen(n, 0), in_scan(n, 0), last_site(n, 0) {}
+
+  int next_runnable(int me, int hops) {
+    int n = (int)finished.size(), cand = me;
+    for (int h = 0; h < hops; h++) {
+      int c = cand;
+      for (int k = 1; k <= n; k++) { int x = (cand + k) % n; if (!finished[(size_t)x]) { c = x; break; } }
+      cand = c;
+    }
+    return cand;
+  }
+  void wait_turn(std::unique_lock<std::mutex> &lk, int me) { cv[(size_t)me].wait(lk, [&] { return current == me; }); }
+  void start(int me) { std::unique_lock<std::mutex> lk(mu); wait_turn(lk, me); }
+  void finish(int me) {
+    std::unique_lock<std::mutex> lk(mu);
+    finished[(size_t)me] = 1;
+    int nx = next_runnable(me, 1);
+    if (!finished[(size_t)nx]) { current = nx; cv[(size_t)nx].notify_all(); } else current = -1;
+  }
+  void yield_point(int site) {
+    int me = tl_task;
+    if (me < 0) return;
+    std::unique_lock<std::mutex> lk(mu);
+    yields++;
+    if (site < 20) yields_by_site[site]++;
+    last_site[(size_t)me] = site;
+    int d = decision < schedule.size() ? schedule[decision] : 0;
+    decision++;
+    if (d <= 0) return;
+    int nx = next_runnable(me, d);
+    if (nx == me) return;
+    switches++;
+    if (site < 20) switches_by_site[site]++;
+    interleaving.add((uint64_t)me); interleaving.add((uint64_t)site); interleaving.add((uint64_t)nx);
+    g_hll_states.add_tuple((uint64_t)me, (uint64_t)site, (uint64_t)nx, (uint64_t)last_site[(size_t)nx]);
+    // probes: the thread we switch to was parked inside gen() / the scan loop
+    if (last_site[(size_t)nx] == Theo::verif::GEN_NODE) probe_switch_while_other_in_gen++;
+    if (last_site[(size_t)nx] == Theo::verif::SCAN_TOKEN) probe_switch_while_other_in_scan++;
+    current = nx;
+    cv[(size_t)nx].notify_all();
+    wait_turn(lk, me);
+  }
+  void on_point(int site, long, long) override {
+    using namespace Theo::verif;
+    if (site == SCAN_TOKEN || site == MACRO_PASS || site == PARSE_P || site == GEN_NODE || site == VM_STEP || site == MACRO_DETECT || site == LR_ELEMENTS) yield_point(site);
+  }
+};
+thread_local int Scheduler::tl_task = -1;
+
+struct ThreadArg { Scheduler *s; int me; const Task *task; TaskResult *out; long long budget; bool *threw; };
+void *thread_main(void *p) {
+  ThreadArg *a = (ThreadArg *)p;
+  Scheduler::tl_task = a->me;
+  a->s->start(a->me);
+  try { *a->out = run_task(*a->task, a->budget); } catch (...) { *a->threw = true; }
+  a->s->yield_point(0);  // API boundary
+  a->s->finish(a->me);
+  Scheduler::tl_task = -1;
+  return nullptr;
+}
+
+struct FreeArg { const Task *task; TaskResult *out; long long budget; };
+void *free_thread_main(void *p) { FreeArg *a = (FreeArg *)p; try { *a->out = run_task(*a->task, a->budget); } catch (...) {} return nullptr; }
+
+}  // namespace
+
+void exec_mt_plan(const Plan &plan, Ctx &ctx, Outcome &out) {
+  size_t n = plan.tasks.size();
+  if (n == 0) return;
+  long long budget = 3000;
+  { auto it = plan.knobs.find("vm_steps"); if (it != plan.knobs.end()) budget = it->second; }
+  bool free_running = plan.knobs.count("free_running") && plan.knobs.at("free_running");
+  for (auto &t : plan.tasks) ctx.evs("task", project_brief(t.proj));
+
+  // (a) every task alone, before any concurrency
+  set_phase(PH_COMPILE);
+  std::vector<TaskResult> alone(n), conc(n), again(n);
+  for (size_t k = 0; k < n; k++) { alone[k] = run_task(plan.tasks[k], budget); ctx.ev("alone", (long long)k, (long long)(alone[k].compile_fp & 0xffffffff), (long long)(alone[k].exec_fp & 0xffffffff)); ctx.sim_steps += alone[k].steps; }
+
+  // concurrent phase on real threads
+  pthread_attr_t attr;
+  pthread_attr_init(&attr);
+  pthread_attr_setstacksize(&attr, 512UL << 20);
+  std::vector<pthread_t> th(n);
+  std::vector<char> threw(n, 0);
+  if (free_running) {
+    std::vector<FreeArg> args(n);
+    for (size_t k = 0; k < n; k++) { args[k] = {&plan.tasks[k], &conc[k], budget}; pthread_create(&th[k], &attr, free_thread_main, &args[k]); }
+    for (size_t k = 0; k < n; k++) pthread_join(th[k], nullptr);
+    ctx.stats.inc("free_running_task_sets");
+  } else {
+    Scheduler sched(n, plan.schedule, ctx);
+    std::vector<ThreadArg> args(n);
+    std::vector<bool> dummy;
+    bool threw_flags[8] = {false};
+    {
+      HookGuard hg(&sched);
+      for (size_t k = 0; k < n; k++) { args[k] = {&sched, (int)k, &plan.tasks[k], &conc[k], budget, &threw_flags[k % 8]}; pthread_create(&th[k], &attr, thread_main, &args[k]); }
+      for (size_t k = 0; k < n; k++) pthread_join(th[k], nullptr);
+    }
+    for (size_t k = 0; k < n; k++) threw[k] = threw_flags[k % 8];
+    ctx.ev("schedule", sched.yields, sched.switches, (long long)(sched.interleaving.get() & 0xffffffff));
+    ctx.stats.inc("yield_points", sched.yields);
+    ctx.stats.inc("context_switches", sched.switches);
+    using namespace Theo::verif;
+    ctx.stats.inc("fault_preemption_at_scan_token", sched.switches_by_site[SCAN_TOKEN]);
+    ctx.stats.inc("fault_preemption_at_macro_pass", sched.switches_by_site[MACRO_PASS] + sched.switches_by_site[MACRO_DETECT] + sched.switches_by_site[LR_ELEMENTS]);
+    ctx.stats.inc("fault_preemption_at_parse_stmt", sched.switches_by_site[PARSE_P]);
+    ctx.stats.inc("fault_preemption_at_gen_node", sched.switches_by_site[GEN_NODE]);
+    ctx.stats.inc("fault_preemption_at_vm_step", sched.switches_by_site[VM_STEP]);
+    ctx.stats.inc("fault_preemption_at_api_boundary", sched.switches_by_site[0]);
+    ctx.stats.inc("probe_switch_to_task_parked_in_gen", sched.probe_switch_while_other_in_gen);
+    ctx.stats.inc("probe_switch_to_task_parked_in_scan", sched.probe_switch_while_other_in_scan);
+    out.state_sig = sched.interleaving.get();
+    out.nontrivial = sched.switches >= 2;
+  }
+  pthread_attr_destroy(&attr);
+  set_phase(PH_HARNESS);
+
+  // (b) every task alone again, after the concurrent phase, in reverse order
+  set_phase(PH_COMPILE);
+  for (size_t k = n; k-- > 0;) { again[k] = run_task(plan.tasks[k], budget); ctx.sim_steps += again[k].steps; }
+  set_phase(PH_HARNESS);
+
+  for (size_t k = 0; k < n; k++) {
+    ctx.ev("result", (long long)k, (long long)(conc[k].compile_fp & 0xffffffff), (long long)(conc[k].exec_fp & 0xffffffff));
+    if (threw[k]) ctx.check(false, "C18", "concurrent_call_completes", "task " + std::to_string(k) + " ended with an exception only when run concurrently");
+    if (alone[k].compile_fp != conc[k].compile_fp)
+      ctx.check(false, "C18", "compile_result_independent_of_other_threads", "task " + std::to_string(k) + ": compile() result differs between running alone and running interleaved with the other tasks");
+    else if (alone[k].exec_fp != conc[k].exec_fp)
+      ctx.check(false, "C18", "vm_independent_of_other_threads", "task " + std::to_string(k) + ": VM run differs between running alone and running interleaved with the other tasks");
+    if (alone[k].compile_fp != again[k].compile_fp)
+      ctx.check(false, "C18", "compile_result_independent_of_history", "task " + std::to_string(k) + ": compiling the same inputs again later in the process gives a different result");
+    else if (alone[k].exec_fp != again[k].exec_fp)
+      ctx.check(false, "C18", "vm_independent_of_history", "task " + std::to_string(k) + ": the same VM session gives a different result later in the process");
+    if (alone[k].ok) ctx.stats.inc("tasks_compiled_ok"); else ctx.stats.inc("tasks_with_compile_errors");
+  }
+  // tasks sharing one project must agree on the compile result among themselves
+  for (size_t a = 0; a < n; a++) for (size_t b = a + 1; b < n; b++)
+    if (plan.tasks[a].proj.files == plan.tasks[b].proj.files && plan.tasks[a].proj.main == plan.tasks[b].proj.main) {
+      ctx.stats.inc("probe_two_vms_on_one_program");
+      if (conc[a].compile_fp != conc[b].compile_fp) ctx.check(false, "C18", "compile_result_independent_of_other_threads", "two concurrent compilations of identical inputs disagree");
+    }
+  ctx.stats.inc("tasks", (long long)n);
+}
+
+// =====================================================================================================
+Plan gen_mt_plan(const std::string &, Rng &rng, long long, const std::string &tier) {
+  bool thorough = tier == "thorough";
+  Plan p;
+  p.world = "mt";
+  int ntasks = (int)rng.range(2, thorough ? 4 : 3);
+  bool twin = rng.chance(3, 10);
+  for (int k = 0; k < ntasks; k++) {
+    Task t;
+    if (twin && k == 1) t.proj = p.tasks[0].proj;
+    else {
+      GenParams gp;
+      gp.max_defs = (int)rng.range(0, 3); gp.max_stmts = (int)rng.range(2, thorough ? 9 : 6); gp.max_depth = (int)rng.range(1, 3); gp.max_const = 4;
+      gp.allow_noparam = true; gp.allow_stop = rng.chance(1, 5);
+      gp.macros = rng.chance(1, 2) ? (unsigned)rng.below(16) : 0;
+      gp.call_heavy = rng.chance(1, 3);
+      t.proj.has_ast = true;
+      t.proj.ast = generate_ast(rng, gp);
+      t.proj.layout.seed = rng.next(); t.proj.layout.style = (int)rng.below(2); t.proj.layout.nfiles = rng.chance(1, 2) ? 1 : (int)rng.range(2, 3); t.proj.layout.spelling = (int)rng.below(4);
+      render(t.proj);
+      if (rng.chance(1, 6)) {
+        // a project with errors: compile messages must be deterministic too
+        auto it = t.proj.files.begin();
+        std::advance(it, (long)rng.below(t.proj.files.size()));
+        std::string &f = it->second;
+        if (!f.empty()) { size_t pos = rng.below(f.size()); f.insert(pos, rng.chance(1, 2) ? " ; ; " : " nosuch := RUN nosuch WITH 1 END "); }
+        t.proj.has_ast = false;
+      }
+    }
+    int nops = (int)rng.range(1, 6);
+    for (int i = 0; i < nops; i++) {
+      Op o; int w = (int)rng.below(10);
+      if (w < 3) { o.k = "bp"; o.a = (long long)rng.below(32); o.b = rng.chance(3, 4); }
+      else if (w < 4) { o.k = "stepmode"; o.a = rng.chance(1, 2); }
+      else if (w < 5) o.k = "clear";
+      else if (w < 6 && rng.chance(1, 3)) o.k = "reset";
+      else { o.k = "run"; o.a = rng.range(1, 200); }
+      t.ops.push_back(o);
+    }
+    if (twin && k == 1) { t.ops.clear(); }   // the twin runs without any breakpoint
+    Op e; e.k = "runall"; t.ops.push_back(e);
+    p.tasks.push_back(t);
+  }
+  // schedule: switch density 1/2 .. 1/64
+  int dens = 1 << (int)rng.range(1, 6);
+  int len = thorough ? 6000 : 2500;
+  p.schedule.reserve((size_t)len);
+  for (int i = 0; i < len; i++) p.schedule.push_back(rng.chance(1, dens) ? (int)rng.range(1, ntasks - 1) : 0);
+  p.knobs["vm_steps"] = thorough ? 6000 : 2000;
+  p.knobs["density"] = dens;
+  p.note = std::to_string(ntasks) + " tasks" + (twin ? " (two on one program)" : "");
+  return p;
+}
+
 }  // namespace sim
